@@ -19,6 +19,7 @@
 -/
 import AITB.Props.C03GapMin
 import AITB.Props.C03Gap
+import AITB.Props.C03Trace
 
 namespace AITB.POMDP3
 open AITB.MDP
@@ -28,7 +29,6 @@ def shiftV (S : Nat) (e : Rat) (V : (Nat → Rat) → Rat) : (Nat → Rat) → R
 
 theorem mass_add (S : Nat) (x y : Nat → Rat) : mass S (fun s => x s + y s) = mass S x + mass S y := sumTo_add S x y
 theorem mass_smul (S : Nat) (c : Rat) (x : Nat → Rat) : mass S (fun s => c * x s) = c * mass S x := sumTo_mul_left S c x
-theorem mass_nonneg (S : Nat) (x : Nat → Rat) (hx : NN x) : 0 ≤ mass S x := sumTo_nonneg (fun s _ => hx s)
 theorem mass_congr (S : Nat) {x y : Nat → Rat} (h : ∀ s, s < S → x s = y s) : mass S x = mass S y := sumTo_congr h
 
 theorem shift_sublin (S : Nat) (e : Rat) (V : (Nat → Rat) → Rat) (hV : Sublin S V) : Sublin S (shiftV S e V) where
@@ -408,5 +408,78 @@ theorem massCut_residual (S n : Nat) (bel : Nat → Nat → Rat) (y : Nat → Ra
   have : sumTo n (fun j => (0 : Rat) * bel j s) = 0 := by
     rw [sumTo_mul_left]; ring
   rw [this]; ring
+
+/-! ## the LOWER side: `Projecter::computePossibleObservations` treats an (action, observation) pair whose probability is at most 1e-6 in every
+    successor state as impossible — its projection is the bare reward share, i.e. the continuation of that observation is the zero vector -/
+
+/-- an observation that has probability at most `θ` in every successor state carries at most `θ·mass x` -/
+theorem mass_bstep_le (m : POMDP) (hv : Valid m) (x : Nat → Rat) (hx : NN x) (a o : Nat) (θ : Rat)
+    (hθ : ∀ s1, s1 < m.S → m.Ob s1 a o ≤ θ) : mass m.S (bstep m x a o) ≤ θ * mass m.S x := by
+  unfold mass bstep
+  have h1 : sumTo m.S (fun s1 => sumTo m.S (fun s => x s * m.T s a s1) * m.Ob s1 a o)
+      ≤ sumTo m.S (fun s1 => θ * sumTo m.S (fun s => x s * m.T s a s1)) := by
+    refine sumTo_le (fun s1 hs1 => ?_)
+    have hn : 0 ≤ sumTo m.S (fun s => x s * m.T s a s1) := sumTo_nonneg (fun s _ => mul_nonneg (hx s) (hv.T0 s a s1))
+    have := mul_le_mul_of_nonneg_left (hθ s1 hs1) hn
+    linarith
+  have h2 : sumTo m.S (fun s1 => sumTo m.S (fun s => x s * m.T s a s1)) = sumTo m.S x := by
+    rw [sumTo_comm]
+    refine sumTo_congr (fun s hs => ?_)
+    rw [sumTo_mul_left, hv.T1 s a hs, mul_one]
+  rw [sumTo_mul_left, h2] at h1
+  exact h1
+
+/-- **point backup with the possible-observation cut**: observations flagged `skip` (probability at most `θ` in every successor state)
+    continue with the zero vector, the others with vectors that are sound up to `e` per unit of mass.  If `U ≥ cL·mass`, `K ≥ 0` bounds
+    `−(cL+e)` and `γ·K·O·θ ≤ (1−γ)·e`, the backed-up vector is sound up to `e` again — at every unnormalised belief, for every action. -/
+theorem pointBackup_cut_sound (m : POMDP) (hv : Valid m) (U : (Nat → Rat) → Rat) (hU : SuperSol m U) (cL e K θ : Rat)
+    (hcL : ∀ y, NN y → cL * mass m.S y ≤ U y) (hK0 : 0 ≤ K) (hK : -(cL + e) ≤ K) (hθ0 : 0 ≤ θ)
+    (hpay : m.γ * K * ((m.O : Rat) * θ) ≤ (1 - m.γ) * e)
+    (a : Nat) (ha : a < m.A) (skip : Nat → Bool) (ch : Nat → Nat → Rat)
+    (hch : ∀ o, o < m.O → if skip o then ((∀ s1, s1 < m.S → m.Ob s1 a o ≤ θ) ∧ ∀ s, ch o s = 0) else LBSoundE m U e (ch o)) :
+    LBSoundE m U e (backupVec m a ch) := by
+  intro x hx
+  rw [dotS_backupVec]
+  have hmx := mass_nonneg m.S x hx
+  have key : ∀ o, o < m.O → dotS m.S (bstep m x a o) (ch o) ≤
+      U (bstep m x a o) + e * mass m.S (bstep m x a o) + (if skip o then K * θ * mass m.S x else 0) := by
+    intro o ho
+    have hy := bstep_nonneg m hv x hx a o
+    have ho' := hch o ho
+    by_cases hs : skip o = true
+    · simp only [hs, if_true] at ho' ⊢
+      have hz : dotS m.S (bstep m x a o) (ch o) = 0 := by
+        unfold dotS
+        rw [sumTo_congr (g := fun _ => (0 : Rat)) (fun s _ => by rw [ho'.2 s, mul_zero]), sumTo_zero]
+      rw [hz]
+      have h1 := hcL _ hy
+      have h2 := mass_bstep_le m hv x hx a o θ ho'.1
+      have h3 := mass_nonneg m.S _ hy
+      have h4 : -(cL + e) * mass m.S (bstep m x a o) ≤ K * mass m.S (bstep m x a o) := mul_le_mul_of_nonneg_right hK h3
+      have h5 : K * mass m.S (bstep m x a o) ≤ K * (θ * mass m.S x) := mul_le_mul_of_nonneg_left h2 hK0
+      nlinarith
+    · simp only [hs] at ho' ⊢
+      simp only [Bool.false_eq_true, if_false] at ho' ⊢
+      have := ho' _ hy
+      linarith
+  have hsum := sumTo_le (f := fun o => dotS m.S (bstep m x a o) (ch o)) key
+  have hsplit : sumTo m.O (fun o => U (bstep m x a o) + e * mass m.S (bstep m x a o) + (if skip o then K * θ * mass m.S x else 0))
+      = sumTo m.O (fun o => U (bstep m x a o)) + e * mass m.S x + sumTo m.O (fun o => if skip o then K * θ * mass m.S x else 0) := by
+    rw [sumTo_add, sumTo_add, sumTo_mul_left, mass_bstep m hv x a]
+  rw [hsplit] at hsum
+  have hnn : 0 ≤ K * θ * mass m.S x := mul_nonneg (mul_nonneg hK0 hθ0) hmx
+  have hskip : sumTo m.O (fun o => if skip o then K * θ * mass m.S x else 0) ≤ (m.O : Rat) * (K * θ * mass m.S x) := by
+    rw [← sumTo_const]
+    refine sumTo_le (fun o _ => ?_)
+    split
+    · exact le_refl _
+    · exact hnn
+  have h1 := qval_le_Hop m hv.A0 U x a ha
+  have h2 := hU x hx
+  unfold qval at h1
+  have h3 := mul_le_mul_of_nonneg_left hsum hv.γ0
+  have h4 := mul_le_mul_of_nonneg_left hskip hv.γ0
+  have h5 := mul_le_mul_of_nonneg_right hpay hmx
+  nlinarith [hv.γ0, hv.γ1]
 
 end AITB.POMDP3
